@@ -303,6 +303,44 @@ def locking(ctx):
     chain(ctx, rid, U + "unlock", [{"k": "call", "field": "bucket::state", "op": "store"}], label="unlock-stores")
 
 
+def pool_locking(ctx):
+    """the shared pools of extension items are plain singly linked lists protected by a spin lock per pool"""
+    rid = "VHM.pool-lock"
+    ctx.rule(rid, "extension-item pools (allocate_extension_item / free_extension_item): the pool head is written only between acquire_lock and release_lock, "
+                  "and the value written / the item handed out is computed from a read of the head taken under that lock (a head read before the lock is only a "
+                  "hint: another thread may pop or push in between)")
+    HEAD = "extension_bucket::head"
+    n = 0
+    for f in ("allocate_extension_item", "free_extension_item"):
+        for fn in flow._shapes(ctx, V + f):
+            locks = flow.find(fn, call("acquire_lock"))
+            unlocks = flow.find(fn, call("release_lock"))
+            stores = flow.find(fn, {"k": "call", "field": HEAD, "op": "store"})
+            inst = V + f
+            if not stores or not locks or not unlocks:
+                ctx.bad(rid, inst + "#locked-update", "%s must update the pool head under the pool lock (stores %d, acquire_lock %d, release_lock %d)" % (
+                    f, len(stores), len(locks), len(unlocks)), fn.where(), fn=fn)
+                continue
+            for s in stores:
+                n += 1
+                ok = any(fn.before(l, s) for l in locks) and flow.always_after(fn, s, unlocks)[0] and not any(
+                    fn.before(l, u) and fn.before(u, s) and not any(fn.before(u, l2) and fn.before(l2, s) for l2 in locks) for l in locks for u in unlocks)
+                ctx.check(ok, rid, inst + "#store-under-lock", "head store at line %d lies between acquire_lock and release_lock" % fn.nodes[s].get("l", 0),
+                          "the pool head is written outside the pool lock", fn.where(s), fn=fn)
+                feeding = flow.src_loads(fn, fn.kids(s)[1])
+                for r in flow.find(fn, {"k": "return"}):
+                    if fn.kids(r) and fn.event_reaches(s, r):
+                        feeding |= flow.src_loads(fn, fn.kids(r)[0])
+                heads = [l for l in feeding if fn.atomic(l)["field"].endswith(HEAD)]
+                stale = [l for l in heads if not any(fn.before(k, l) for k in locks)]
+                ctx.check(not stale, rid, inst + "#read-under-lock", "the head value used for the update is read under the lock",
+                          "the pool head read at line %d is taken BEFORE acquire_lock but is used to compute the new head / the item handed out: two threads that overflow "
+                          "buckets sharing this pool can pop the same extension item (lost inserts, items linked into two buckets)" % (
+                              fn.nodes[stale[0]].get("l", 0) if stale else 0), fn.where(stale[0]) if stale else fn.where(), fn=fn)
+    if n < 2:
+        ctx.broken.append("VHM.pool-lock: only %d pool head stores found" % n)
+
+
 def grow_protocol(ctx):
     rid = "VHM.grow"
     ctx.rule(rid, "grow: every old bucket is locked before the first item is copied; the new block is published (release) before the "
@@ -419,23 +457,7 @@ def iterator_rules(ctx):
                 ctx.check(ok, rid2, pat + "#extension-with-prev@L-rel%d" % ext_sets.index(x), "extension set together with prev",
                           "iterator::extension is set (to %s) on a path where iterator::prev is not set to the link holding it: erase(iterator&) "
                           "dereferences a stale/null prev" % rhs, fn.where(x), fn=fn)
-    # erase(iterator&): cached state coherence (F7)
-    for fn in flow._shapes(ctx, V + "erase"):
-        if not any(p["name"] == "pos" for p in fn.params):
-            continue
-        stores = [s for s in flow.find(fn, STATE_STORE) if "new_version" in _deep_expr(fn, s)]
-        cache_sets = [e for e in flow.find(fn, {"k": "call", "callee": "bucket_state::operator="}) if "current_bucket_state" in fn.expr(fn.kids(e)[0])]
-        cache_sets += [e for e in flow.find(fn, {"k": "bin"}) if fn.nodes[e]["op"] == "=" and "current_bucket_state" in fn.expr(fn.kids(e)[0])]
-        # group version-bumping stores by branch: the last bumping store on each path to exit must be accompanied by a cache update on that path
-        finals = [s for s in stores if not any(fn.event_reaches(s, t) for t in stores if t != s)]
-        for s in finals:
-            ok = any(fn.before(c, s) or fn.before(s, c) for c in cache_sets if "new_version" in _deep_expr(fn, c) or True) and any(
-                (fn.before(c, s) or fn.before(s, c)) for c in cache_sets)
-            ctx.check(ok, rid2, V + "erase(iterator&)#cache-follows-bump@L-rel%d" % finals.index(s), "cached state updated with the bumped version",
-                      "erase(iterator&) bumps the bucket version (line %d) but does not update the iterator's cached state on that path: the old "
-                      "version is written back on unlock and lock-free readers miss the removal" % fn.nodes[s]["l"], fn.where(s), fn=fn)
-        ctx.check(len(finals) >= 3, rid2, V + "erase(iterator&)#three-cases", "%d removal paths bump the version" % len(finals),
-                  "erase(iterator&) must bump the bucket version on each of its three removal paths (found %d)" % len(finals), fn.where(), fn=fn)
+    # erase(iterator&): cached state coherence (F7) is decided by cache_coherence() below (abstract interpretation of the bucket_state algebra)
 
 
 # ---------------------------------------------------------------------------------------------------------------
@@ -541,6 +563,8 @@ def cache_coherence(ctx):
         results = []
         stack = [(fn.entry, {"cache": {"base": "S0", "dv": 0, "dc": 0, "lock": 0, "marker": None}}, None, {})]
         npaths = 0
+        unlocked_store = None
+        n_stores = 0
         while stack and npaths < 500:
             b, env, stored, visits = stack.pop()
             visits = dict(visits)
@@ -571,6 +595,9 @@ def cache_coherence(ctx):
                         stored = _bs_eval(fn, c[1], env)
                         if stored is None:
                             stored = {"base": "?", "dv": None, "dc": None, "lock": None, "marker": None}
+                        n_stores += 1
+                        if stored.get("lock") == 0:
+                            unlocked_store = e
                     if leaf in ("move_to_next_bucket", "reset") and "iterator" in n.get("callee", ""):
                         results.append((e, dict(env["cache"]) if env.get("cache") else None, dict(stored) if stored else None, "write-back via " + leaf))
                         ended = True
@@ -598,10 +625,17 @@ def cache_coherence(ctx):
             if cache is None or stored.get("dv") is None:
                 bad = (e, "cached state or stored state not derivable on a path ending in %s" % how)
                 break
+            if stored["dv"] < 1:
+                bad = (e, "a removal path ending in %s stores a state whose version is not bumped (version %+d): lock-free readers that overlap the removal validate "
+                          "successfully and miss the moved / removed item" % (how, stored["dv"]))
+                break
             if not (cache["base"] == stored["base"] and cache["dv"] == stored["dv"] and cache["dc"] == stored["dc"] and cache["lock"] == 0 and not cache["marker"]):
                 bad = (e, "at %s the cached state is (version %+d, items %+d, lock %s) but the last state stored to the bucket is (version %+d, items %+d): the value "
                           "written back on unlock %s" % (how, cache["dv"], cache["dc"], cache["lock"], stored["dv"], stored["dc"],
                                                          "rolls the version back (readers miss a removal)" if cache["dv"] < stored["dv"] else "differs from the published state"))
                 break
+        ctx.check(unlocked_store is None and n_stores > 0, rid, V + "erase(iterator&)#stored-state-keeps-lock", "every state stored while the iterator stays on the bucket has the lock bit set",
+                  "erase(iterator&) stores a bucket state with the lock bit cleared while the iterator remains positioned on the bucket: a waiting writer gets in, the iterator's "
+                  "later unlock writes back a stale count/version (resurrected elements), and the iterator may walk freed extension items", fn.where(unlocked_store) if unlocked_store else fn.where(), fn=fn)
         ctx.check(bad is None and n_checked >= 3, rid, V + "erase(iterator&)#cache==stored", "%d paths: cached state equals the last stored state with the lock cleared" % n_checked,
                   bad[1] if bad else "fewer than three removal paths store a state (%d)" % n_checked, fn.where(bad[0]) if bad and bad[0] is not None else fn.where(), fn=fn)
